@@ -747,6 +747,28 @@ class Interp:
                 kwargs[kw.arg] = self.ev(kw.value, env)
         return self.call(f, args, kwargs, node=n)
 
+    def run_cut(self, key, env, extra=None):
+        """cut point `key` of the verified contract (`asserts={key: [...]}`): ghost statements are executed, other
+        clauses proved (named obligations) and assumed"""
+        c = self.cur_contract
+        if c is None or not getattr(c, "asserts", None) or len(self.fn_stack) != 1:
+            return
+        for i, cl in enumerate(c.asserts.get(key, [])):
+            if cl.startswith("ghost:"):
+                self.exec_ghost(cl[6:], env, extra=extra)
+                continue
+            self.path.prove(self.eval_spec(cl, env, extra=extra), "%s/assert-after:%s#%d" % (c.short, key, i), "assert", where=cl)
+
+    def ev_Yield(self, n, env):
+        """`yield e` in the verified function itself: the generator's output is not materialised (it may contain
+        heap objects and is produced across loop cuts); instead every yield is a cut point "yield:<source of e>"
+        whose ghost statements (with `_yield` bound to the value) record what the contract talks about."""
+        if len(self.fn_stack) != 1 or self.spec:
+            raise Unsupported("yield outside the verified function")
+        v = self.ev(n.value, env) if n.value is not None else VNone()
+        self.run_cut("yield:" + (ast.unparse(n.value) if n.value is not None else ""), env, extra={"_yield": v})
+        return VNone()
+
     def ev_Lambda(self, n, env):
         return VFunc("lambda", "<lambda>", node=n, module=env.module, closure=env)
 
@@ -1767,6 +1789,8 @@ class Interp:
                             _target_names(t, cuts)
                 elif isinstance(x, ast.Expr) and isinstance(x.value, ast.Call):
                     cuts.add("call:" + ast.unparse(x.value.func))
+                elif isinstance(x, ast.Yield):
+                    cuts.add("yield:" + (ast.unparse(x.value) if x.value is not None else ""))
         names = set()
         for key, ns in writes.items():
             if key in cuts:
